@@ -95,7 +95,10 @@ PROPS: dict[str, dict[str, Any]] = {
                 "files hold exactly the in-memory stream under the renamed keys, loading inverts saving, and the learned models (events, successor / "
                 "predecessor multisets, counts) of both routes are equal per workflow. Every case is a distinct seeded input; all are non-trivial "
                 "(>= 2 traces)",
-        "assumptions": ["bounded, not proved", "diagram text is not compared: that the diagram is a function of the learned model is C03 (not decided)",
+        "assumptions": ["route equivalence is bounded, not proved; the proved part (contracts/c14.py) covers the file boundary only: files are the ghost map "
+                        "fs.files (json.dump / json.load inverse on strings, lists of strings and string-keyed dicts; key order inside a stored dict not "
+                        "modelled), a PVEvent is the dict it is at run time, pydantic validation of PVEventModel is trusted",
+                        "diagram text is not compared: that the diagram is a function of the learned model is C03 (not decided)",
                         "janus (test_event_generator) is absent: /verif/stubs reproduces GraphSolution.from_event_list from its documented behaviour"],
     },
     "C15": {
